@@ -28,6 +28,7 @@ func init() {
 			c06Storms(c)
 			c06Gated(c)
 			c06Flush(c)
+			c06FlushOrder(c)
 			c06Many(c)
 			runMatrix(c, "C06")
 		},
@@ -435,5 +436,76 @@ func c06Many(c *ev.Ctx) {
 		c.Case(fmt.Sprintf("many:%d", n), true)
 		c.Max("max_parked_at_once", int64(n))
 		p.Close()
+	}
+}
+
+// c06FlushOrder: flushes judged by the order of the frames on the wire, with
+// no pause between them (all frames of a round go out in one write).
+//
+//	mutual:  Tflush(tag a, oldtag b) then Tflush(tag b, oldtag a). When the first
+//	         was sent, b was idle: it is answered at once; the second names a
+//	         request sent earlier and may wait for it. Both are answered.
+//	forward: Tflush(tag a, oldtag b) then a request with tag b: same reasoning.
+//	ring:    three flushes each naming the next one's tag.
+//
+// A receiver that looks the old tag up only when the flush handler runs can see
+// the later frame's tag as in flight and wait for it - forever, in the mutual
+// case. Schedule-dependent: many rounds.
+func c06FlushOrder(c *ev.Ctx) {
+	rounds := c.Sz(3000, 120000)
+	shapes := []string{"mutual", "forward", "ring"}
+	for si, shape := range shapes {
+		_, p, ok := stormWorld(c, 0, false)
+		if !ok {
+			c.Inconclusive("flush-order setup")
+			p.Close()
+			continue
+		}
+		c.Begin("C06 flush order " + shape)
+		bad := false
+		for i := 0; i < rounds && !bad; i++ {
+			if !c.Mine(i*len(shapes) + si) {
+				continue
+			}
+			from := p.NReplies()
+			a, b, d := uint16(100+(i%50)*3), uint16(101+(i%50)*3), uint16(102+(i%50)*3)
+			var frames []byte
+			var tags []uint16
+			switch shape {
+			case "mutual":
+				frames = append(wire.Encode(wire.Tflush, a, u(uint64(b))), wire.Encode(wire.Tflush, b, u(uint64(a)))...)
+				tags = []uint16{a, b}
+			case "forward":
+				frames = append(wire.Encode(wire.Tflush, a, u(uint64(b))), wire.Encode(wire.Tgetattr, b, u(20), u(1))...)
+				tags = []uint16{a, b}
+			case "ring":
+				frames = append(append(wire.Encode(wire.Tflush, a, u(uint64(b))), wire.Encode(wire.Tflush, b, u(uint64(d)))...), wire.Encode(wire.Tflush, d, u(uint64(a)))...)
+				tags = []uint16{a, b, d}
+			}
+			for _, t := range tags {
+				p.Expect(wire.Encode(wire.Tflush, t, u(0))) // accounted as outstanding (type checked below)
+			}
+			p.SendRaw(frames)
+			for _, t := range tags {
+				rep, ok, o, dump := p.WaitTag(t, from)
+				if !ok {
+					hang(c, o, dump, "C06:flush-order:"+shape+":request-unanswered", map[string]any{"round": i, "tag": t})
+					bad = true
+					break
+				}
+				if rep.Msg.Type == wire.Rlerror {
+					c.Violation("C06:flush-order:"+shape+":wrong-reply", map[string]any{"reply": rep.Msg.String()})
+					bad = true
+				}
+			}
+			c.Count("flush_order_rounds", 1)
+		}
+		p.Monitor()
+		c.Case("flush-order:"+shape, true)
+		if bad {
+			return
+		}
+		out, dump := p.Close()
+		hang(c, out, dump, "C06:flush-order:"+shape+":Handle-does-not-return", nil)
 	}
 }
